@@ -459,6 +459,7 @@ type runOut struct {
 	dumps    map[int]map[string]*tableDump // after entry i
 	crashed  bool
 	wall     []string // "state:<table>@i" / "result@i"
+	expired  int      // how often a non-empty lock-delay map was emptied (replica A' only)
 }
 
 // run applies the history to a fresh replica. dumpEvery<=0: after every entry.
@@ -468,6 +469,14 @@ func runHistory(h *history, variant int, dumpEvery int, verbose bool) *runOut {
 	out := &runOut{dumps: map[int]map[string]*tableDump{}}
 	now := time.Now()
 	for i, e := range h.entries {
+		// replica A' lives on a server whose clock runs differently: before every other entry all of
+		// its lock delays have already expired (the model's Env.loc is arbitrary per log position)
+		if variant == 1 && i%2 == 1 {
+			if r.f.State().VerifC01LockDelayKeys() > 0 {
+				out.expired++
+			}
+			r.f.State().VerifC01ExpireLockDelays()
+		}
 		res, outcome, panicked := r.apply(e)
 		s, ts := canonValue(res)
 		for _, t := range ts {
@@ -877,10 +886,16 @@ func main() {
 	outsA := make([]*runOut, nHist)
 	var mu sync.Mutex
 	var findings []finding
+	expiredHistories := 0
 	parallel(nHist, func(i int) {
 		h := hs[i]
 		a := runHistory(h, 0, 1, false)
 		b := runHistory(h, 1, h.dumpEvery, false)
+		if b.expired > 0 {
+			mu.Lock()
+			expiredHistories++
+			mu.Unlock()
+		}
 		fs := compare(h, a, b, "replica A' (same process)", false)
 		if len(fs) > 0 {
 			// re-run both verbosely, dumping after every entry, to name the first diverging command and row
@@ -915,6 +930,7 @@ func main() {
 		}
 	})
 
+	run.Hist["lock-delay:histories-where-replica-A'-expired-a-non-empty-map"] = expiredHistories
 	if err := cmd.Wait(); err != nil {
 		run.Violate("harness:child-failed", fmt.Sprintf("child process failed: %v: %.1000s", err, childErr.String()), nil)
 	}
